@@ -466,25 +466,36 @@ def apply_rewrites(src, mask, it, ed, stats, spec_entry):
     #   X[N..]                        => str_tail(X, N)                                                     [requires that boundary fact: the slice cannot panic]
     #   E.strip_suffix("LIT")         => strip_suffix_lit(E, "LIT");   X.split("LIT") => split_lit(X, "LIT") (the pieces, collected)
     #   X.to_string().parse::<T>()    => parse_i32 / parse_f32(&X.to_string());   X.parse::<T>() => parse_i32_str / parse_f32_str(&*X)
-    for m in re.finditer(r'(?<![\w.])([a-z_]\w*)\.starts_with\(\s*("(?:[^"\\]|\\.)*")\s*\)', body):
+    LIT = r'("(?:[^"\\]|\\.)*"|\'(?:[^\'\\]|\\.)\')'          # a string literal, or a char literal (the same pattern as the one-character string)
+    def aslit(t):
+        if t.startswith('"'): return t
+        c = t[1:-1]
+        return '"%s"' % ('\\"' if c == '"' else ("'" if c == "\\'" else c))
+    for m in re.finditer(r'(?<![\w.])([a-z_]\w*)\.(starts_with|ends_with)\(\s*%s\s*\)' % LIT, body):
         if mask[lo + m.start()] != ord('c'): continue
-        ed.replace(lo + m.start(), lo + m.end(), '({ proof { reveal_strlit(%s); } crate::spec::starts_with_lit(%s, %s) })' % (m.group(2), m.group(1), m.group(2)))
+        lit = aslit(m.group(3))
+        ed.replace(lo + m.start(), lo + m.end(), '({ proof { reveal_strlit(%s); } crate::spec::%s_lit(%s, %s) })' % (lit, m.group(2), m.group(1), lit))
         stats['R15_str'] = stats.get('R15_str', 0) + 1
-    for m in re.finditer(r'(?<![\w.])([a-z_]\w*)\[\s*(\d+)\s*\.\.\s*\](\.strip_suffix\(\s*("(?:[^"\\]|\\.)*")\s*\))?', body):
+    for m in re.finditer(r'(?<![\w.])([a-z_]\w*)\[\s*(\d+)\s*\.\.\s*\](\.strip_suffix\(\s*%s\s*\))?' % LIT, body):
         if mask[lo + m.start()] != ord('c'): continue
         t = 'crate::spec::str_tail(%s, %s)' % (m.group(1), m.group(2))
-        if m.group(3): t = 'crate::spec::strip_suffix_lit(%s, %s)' % (t, m.group(4))
+        if m.group(3): t = 'crate::spec::strip_suffix_lit(%s, %s)' % (t, aslit(m.group(4)))
         ed.replace(lo + m.start(), lo + m.end(), t)
         stats['R15_str'] = stats.get('R15_str', 0) + 1
-    for m in re.finditer(r'(?<![\w.])([a-z_]\w*)\.split\(\s*("(?:[^"\\]|\\.)*")\s*\)', body):
+    for m in re.finditer(r'(?<![\w.\]])([a-z_]\w*)\.(strip_suffix|strip_prefix)\(\s*%s\s*\)' % LIT, body):
         if mask[lo + m.start()] != ord('c'): continue
-        ed.replace(lo + m.start(), lo + m.end(), 'crate::spec::split_lit(%s, %s)' % (m.group(1), m.group(2)))
+        ed.replace(lo + m.start(), lo + m.end(), 'crate::spec::%s_lit(%s, %s)' % (m.group(2), m.group(1), aslit(m.group(3))))
         stats['R15_str'] = stats.get('R15_str', 0) + 1
-    for m in re.finditer(r'(?<![\w.])([a-z_]\w*)\.to_string\(\)\.parse::<(i32|f32)>\(\)', body):
+    for m in re.finditer(r'(?<![\w.])([a-z_]\w*)\.(split|split_terminator|rsplit|split_inclusive)\(\s*%s\s*\)' % LIT, body):
         if mask[lo + m.start()] != ord('c'): continue
-        ed.replace(lo + m.start(), lo + m.end(), 'crate::spec::parse_%s(&%s.to_string())' % (m.group(2), m.group(1)))
+        ed.replace(lo + m.start(), lo + m.end(), 'crate::spec::%s_lit(%s, %s)' % (m.group(2), m.group(1), aslit(m.group(3))))
         stats['R15_str'] = stats.get('R15_str', 0) + 1
-    for m in re.finditer(r'(?<![\w.])([a-z_]\w*)\.parse::<(i32|f32)>\(\)', body):          # the same on a string slice / String variable directly
+    NUM = 'i8|i16|i32|i64|i128|isize|u8|u16|u32|u64|u128|usize|f32|f64'
+    for m in re.finditer(r'(?<![\w.])([a-z_]\w*)\.to_string\(\)\.parse::<(%s)>\(\)' % NUM, body):
+        if mask[lo + m.start()] != ord('c'): continue
+        ed.replace(lo + m.start(), lo + m.end(), 'crate::spec::parse_%s_str(&*%s.to_string())' % (m.group(2), m.group(1)) if m.group(2) not in ('i32', 'f32') else 'crate::spec::parse_%s(&%s.to_string())' % (m.group(2), m.group(1)))
+        stats['R15_str'] = stats.get('R15_str', 0) + 1
+    for m in re.finditer(r'(?<![\w.])([a-z_]\w*)\.parse::<(%s)>\(\)' % NUM, body):          # the same on a string slice / String variable directly
         if mask[lo + m.start()] != ord('c'): continue
         ed.replace(lo + m.start(), lo + m.end(), 'crate::spec::parse_%s_str(&*%s)' % (m.group(2), m.group(1)))
         stats['R15_str'] = stats.get('R15_str', 0) + 1
@@ -1142,7 +1153,11 @@ def _assemble(repo, spec, rows=None, canary=None, opts=None):
                 # locals renamed since the overlays were written are followed (only pure renames: see binder_renames)
                 ren = binder_renames(opts['known_binders'].get((path_override or fn_path(mod, it)).split('@')[0], []), fn_binders(src, mask, it))
                 if ren:
-                    e = dict(e, text=rename_in_overlay(e['text'], ren), loops={k: rename_in_overlay(t, ren) for k, t in e['loops'].items()},
+                    # the contract itself (requires / ensures / decreases) can only mention parameters -- and the name it gives to the result, which may
+                    # coincide with an old local -- so only renamed PARAMETERS are followed there; invariants and proof blocks follow every rename
+                    then_params = set(x[-1] for x in opts['known_binders'].get((path_override or fn_path(mod, it)).split('@')[0], []) if x[0] == 'param')
+                    ren_sig = dict((o, n) for o, n in ren.items() if o in then_params and o != e.get('ret'))
+                    e = dict(e, text=rename_in_overlay(e['text'], ren_sig), loops={k: rename_in_overlay(t, ren) for k, t in e['loops'].items()},
                              proofs={k: rename_in_overlay(t, ren) for k, t in e['proofs'].items()})
                     stats['binder_renames'] = stats.get('binder_renames', 0) + len(ren)
             kind = 'verified'
@@ -1178,6 +1193,13 @@ def _assemble(repo, spec, rows=None, canary=None, opts=None):
                 P = first_param(src, it)
                 if P is None: raise ToolError('instruction %s: cannot find the state parameter of %s' % (name, path))
                 text += row.contract(P)
+            # every verified function that has a loop is checked with `loop_isolation(false)`: what the code established before a loop (a local
+            # computed once, the arm of a match the loop sits in) is then known inside it, as it is for a reader -- otherwise naming a sub-expression
+            # in front of a loop would turn into a failed obligation (harmless patch agent3_09)
+            if kind == 'verified' and not (e and 'loop_isolation' in (e['attrs'] or '')) and os.environ.get('VERIF_LOOP_ISOLATION', '0') != '1':
+                if find_loops(src, mask, it['body_start'] + 1, it['end'] - 1):
+                    ed.insert(kwline, indent + '#[verifier::loop_isolation(false)]\n' + ('' if (e and 'allow_complex_invariants' in (e['attrs'] or '')) else indent + '#[verifier::allow_complex_invariants]\n'), prio=0)
+                    stats['loop_isolation_off'] = stats.get('loop_isolation_off', 0) + 1
             if e:
                 if e['attrs']:
                     ed.insert(kwline, ''.join(indent + l + '\n' for l in e['attrs'].strip().split('\n')), prio=0)
